@@ -9,7 +9,7 @@ use winnow::error::StrContext;
 pub use winnow::{
     ascii::{alpha1, digit1, multispace0, multispace1},
     combinator::{
-        alt, cut_err, delimited, eof, fail, preceded, repeat, repeat_till, separated,
+        alt, cut_err, delimited, eof, fail, peek, preceded, repeat, repeat_till, separated,
         separated_pair, terminated,
     },
     error::{ContextError, StrContext::Label, StrContextValue},
